@@ -1,5 +1,410 @@
 package netsim
 
-// adversaryStep lets Byzantine validators and the garbage sender act at a
-// quiescent point. (Filled in by adversary_*.go; no-op until strategies are drawn.)
-func (s *Sim) adversaryStep() {}
+import (
+	"fmt"
+	"math/big"
+	"sort"
+	"time"
+
+	"verif/sim/kit"
+
+	"github.com/kardiachain/go-kardia/consensus"
+	cstypes "github.com/kardiachain/go-kardia/consensus/types"
+	"github.com/kardiachain/go-kardia/kai/state/cstate"
+	"github.com/kardiachain/go-kardia/lib/common"
+	kproto "github.com/kardiachain/go-kardia/proto/kardiachain/types"
+	"github.com/kardiachain/go-kardia/trie"
+	"github.com/kardiachain/go-kardia/types"
+)
+
+// Byz is one Byzantine validator: a key held by the adversary. It has no node;
+// everything it "says" is crafted here and signed through the recording signer
+// (Forged=true), so the registry knows every tuple it ever signed.
+type Byz struct {
+	ID     int // node id slot (no node behind it)
+	Addr   common.Address
+	Signer *kit.RecSigner
+	Strat  string
+	// memo of decisions so the tape is consulted once per (h, r, type, target)
+	choice map[string]int
+	votes  map[string]*types.Vote // signed votes by (h,r,type,blockKey)
+	props  map[string]*byzProposal
+}
+
+type byzProposal struct {
+	block *types.Block
+	parts *types.PartSet
+	prop  *types.Proposal
+	kind  string
+}
+
+// knownBlock is the adversary's / monitors' registry of blocks seen in a run.
+type knownBlock struct {
+	block  *types.Block
+	parts  *types.PartSet
+	id     types.BlockID
+	height uint64
+	byByz  bool
+	kind   string // "correct", "byz-valid", "byz-invalid:<rule>"
+}
+
+var byzStrategies = []string{"silent", "echo", "nil-voter", "equivocate", "split", "invalid-proposer", "withhold"}
+
+func (s *Sim) setupByz() {
+	for _, id := range s.cfg.ByzIdx {
+		k := s.spec.ValKeys[id]
+		sg := kit.NewRecSigner(k, s.reg)
+		sg.Forged = true
+		b := &Byz{ID: id, Addr: kit.AddrOf(k), Signer: sg, choice: map[string]int{}, votes: map[string]*types.Vote{}, props: map[string]*byzProposal{}}
+		b.Strat = s.cfg.ByzStrat[len(s.byz)]
+		s.byz = append(s.byz, b)
+	}
+}
+
+func (s *Sim) registerBlock(b *types.Block, ps *types.PartSet, byByz bool, kind string) *knownBlock {
+	id := types.BlockID{Hash: b.Hash(), PartsHeader: ps.Header()}
+	key := id.Key()
+	if kb, ok := s.blocks[key]; ok {
+		return kb
+	}
+	kb := &knownBlock{block: b, parts: ps, id: id, height: b.Height(), byByz: byByz, kind: kind}
+	s.blocks[key] = kb
+	s.blocksByH[b.Height()] = append(s.blocksByH[b.Height()], kb)
+	return kb
+}
+
+// learnBlocks records complete proposal blocks held by correct nodes.
+func (s *Sim) learnBlocks(rss map[int]*cstypes.RoundState) {
+	for _, id := range sortedKeys(rss) {
+		rs := rss[id]
+		if rs.ProposalBlock != nil && rs.ProposalBlockParts != nil && rs.ProposalBlockParts.IsComplete() {
+			s.registerBlock(rs.ProposalBlock, rs.ProposalBlockParts, false, "correct")
+		}
+		if rs.LockedBlock != nil && rs.LockedBlockParts != nil {
+			s.registerBlock(rs.LockedBlock, rs.LockedBlockParts, false, "correct")
+		}
+	}
+}
+
+func sortedKeys(m map[int]*cstypes.RoundState) []int {
+	var ks []int
+	for k := range m {
+		ks = append(ks, k)
+	}
+	sort.Ints(ks)
+	return ks
+}
+
+// byzVote returns (signing once) b's vote for the given block id at (h, r, type).
+func (s *Sim) byzVote(b *Byz, vals *types.ValidatorSet, h uint64, r uint32, t kproto.SignedMsgType, id types.BlockID, ts time.Time) *types.Vote {
+	key := fmt.Sprintf("%d/%d/%d/%s", h, r, t, id.Key())
+	if v, ok := b.votes[key]; ok {
+		return v
+	}
+	idx, _ := vals.GetByAddress(b.Addr)
+	if idx < 0 {
+		return nil
+	}
+	v := &types.Vote{ValidatorAddress: b.Addr, ValidatorIndex: uint32(idx), Height: h, Round: r, Timestamp: ts, Type: t, BlockID: id}
+	pv := v.ToProto()
+	if err := b.Signer.SignVote(s.spec.ChainID, pv); err != nil {
+		return nil
+	}
+	v.Signature = pv.Signature
+	b.votes[key] = v
+	s.res.Fault("byz-vote-signed")
+	return v
+}
+
+func (s *Sim) sendRaw(src, dst int, ch byte, msg consensus.Message, key, desc string) {
+	full := fmt.Sprintf("%d>%d/%s", src, dst, key)
+	if t, ok := s.until[full]; ok && s.now() < t {
+		return
+	}
+	s.schedule(&Msg{Src: src, Dst: dst, Ch: ch, Bytes: consensus.MustEncode(msg), Desc: desc, Key: full, Byz: true})
+}
+
+// adversaryStep lets Byzantine validators and noise adversaries act at a
+// quiescent point.
+func (s *Sim) adversaryStep() {
+	if s.phase == 2 {
+		return // synchronous suffix: Byzantine validators are limited to silence
+	}
+	live := s.liveNodes()
+	rss := map[int]*cstypes.RoundState{}
+	for _, n := range live {
+		if !n.Mgr.WaitSync() {
+			rss[n.ID] = rsOf(n)
+		}
+	}
+	s.learnBlocks(rss)
+	for _, b := range s.byz {
+		if b.Strat == "silent" {
+			continue
+		}
+		for _, id := range sortedKeys(rss) {
+			s.byzAct(b, s.nodes[id], rss[id])
+		}
+	}
+	s.noiseStep(rss)
+}
+
+// candidates returns the block ids the adversary may vote for at height h:
+// index 0 = nil.
+func (s *Sim) candidates(h uint64) []types.BlockID {
+	out := []types.BlockID{{}}
+	for _, kb := range s.blocksByH[h] {
+		out = append(out, kb.id)
+	}
+	return out
+}
+
+func (s *Sim) byzAct(b *Byz, target *kit.Node, rs *cstypes.RoundState) {
+	if rs.Validators == nil || !rs.Validators.HasAddress(b.Addr) {
+		return
+	}
+	h, r := rs.Height, rs.Round
+	// 1. proposals, when the target believes it is b's turn
+	if rs.Proposal == nil && rs.Step <= cstypes.RoundStepPropose && rs.Validators.GetProposer().Address == b.Addr {
+		s.byzPropose(b, target, rs)
+	}
+	if b.Strat == "withhold" {
+		// votes are signed now but released a few rounds later
+		if r < 2 {
+			return
+		}
+		r = r - 1
+	}
+	// 2. votes for the target's round
+	for _, t := range []kproto.SignedMsgType{kproto.PrevoteType, kproto.PrecommitType} {
+		if t == kproto.PrecommitType && rs.Step < cstypes.RoundStepPrevote {
+			continue
+		}
+		ck := fmt.Sprintf("%d/%d/%d/%d", h, r, t, target.ID)
+		ch, ok := b.choice[ck]
+		if !ok {
+			cands := s.candidates(h)
+			switch b.Strat {
+			case "nil-voter":
+				ch = 0
+			case "echo", "withhold", "invalid-proposer":
+				// vote for what the target itself holds as proposal (nil if none)
+				ch = 0
+				if rs.ProposalBlock != nil {
+					for i, c := range cands {
+						if c.Hash == rs.ProposalBlock.Hash() {
+							ch = i
+						}
+					}
+				}
+				if rs.ProposalBlock == nil && rs.Step <= cstypes.RoundStepPropose {
+					continue // wait for a proposal before echoing
+				}
+			case "equivocate":
+				ch = s.tape.Draw(len(cands) + 1)
+				if ch == len(cands) {
+					ch = -1 // stay silent towards this target
+				}
+			case "split":
+				// two halves of the correct nodes are told different things
+				ch = 0
+				if len(cands) > 1 {
+					ch = 1 + (target.ID % (len(cands) - 1))
+					if len(cands) == 2 && target.ID%2 == 1 {
+						ch = 0
+					}
+				}
+			}
+			b.choice[ck] = ch
+		}
+		if ch < 0 {
+			continue
+		}
+		cands := s.candidates(h)
+		if ch >= len(cands) {
+			ch = 0
+		}
+		v := s.byzVote(b, rs.Validators, h, r, t, cands[ch], time.Now())
+		if v == nil {
+			continue
+		}
+		s.sendRaw(b.ID, target.ID, consensus.VoteChannel, &consensus.VoteMessage{Vote: v}, "byz-"+voteKey(v),
+			fmt.Sprintf("BYZ%d Vote h%d r%d t%d %s", b.ID, v.Height, v.Round, v.Type, short(v.BlockID.Hash)))
+		s.ah.Add("byzvote", b.Strat)
+	}
+}
+
+var invalidRules = []string{"height+1", "last-block-id", "commit-other-block", "commit-bad-sig", "commit-below-quorum", "app-hash",
+	"validators-hash", "next-validators-hash", "time+1ns", "time-not-after-parent", "unknown-proposer", "num-txs", "data-hash", "commit-hash"}
+
+// byzPropose crafts b's proposal for the target's (h, r).
+func (s *Sim) byzPropose(b *Byz, target *kit.Node, rs *cstypes.RoundState) {
+	h, r := rs.Height, rs.Round
+	variant := 0 // 0 = block A for everybody
+	switch b.Strat {
+	case "equivocate", "split":
+		variant = target.ID % 2
+	case "nil-voter":
+		return
+	}
+	key := fmt.Sprintf("%d/%d/%d", h, r, variant)
+	bp, ok := b.props[key]
+	if !ok {
+		st := target.CS.VerifState()
+		if st.LastBlockHeight+1 != h {
+			return
+		}
+		rule := ""
+		if b.Strat == "invalid-proposer" {
+			rule = invalidRules[s.tape.Draw(len(invalidRules))]
+		}
+		blk := s.craftBlock(b, target, rs, st, variant, rule)
+		if blk == nil {
+			return
+		}
+		ps := blk.MakePartSet(types.BlockPartSizeBytes)
+		id := types.BlockID{Hash: blk.Hash(), PartsHeader: ps.Header()}
+		p := types.NewProposal(h, r, 0, id)
+		pp := p.ToProto()
+		if err := b.Signer.SignProposal(s.spec.ChainID, pp); err != nil {
+			return
+		}
+		p.Signature = pp.Signature
+		kind := "byz-valid"
+		if rule != "" {
+			kind = "byz-invalid:" + rule
+		}
+		bp = &byzProposal{block: blk, parts: ps, prop: p, kind: kind}
+		b.props[key] = bp
+		s.registerBlock(blk, ps, true, kind)
+		s.res.Fault("byz-proposal:" + kind)
+		s.ah.Add("byzprop", kind)
+		s.trace("BYZ%d crafts proposal h%d r%d variant %d %s %s", b.ID, h, r, variant, kind, short(id.Hash))
+	}
+	p := bp.prop
+	s.sendRaw(b.ID, target.ID, consensus.DataChannel, &consensus.ProposalMessage{Proposal: p},
+		fmt.Sprintf("byzprop/%d/%d/%s", p.Height, p.Round, short(p.POLBlockID.Hash)),
+		fmt.Sprintf("BYZ%d Proposal h%d r%d %s (%s)", b.ID, p.Height, p.Round, short(p.POLBlockID.Hash), bp.kind))
+	for i := 0; i < int(bp.parts.Total()); i++ {
+		s.sendRaw(b.ID, target.ID, consensus.DataChannel, &consensus.BlockPartMessage{Height: h, Round: r, Part: bp.parts.GetPart(i)},
+			fmt.Sprintf("byzpart/%d/%s/%d", h, short(bp.parts.Header().Hash), i),
+			fmt.Sprintf("BYZ%d Part h%d #%d/%d %s", b.ID, h, i, bp.parts.Total(), short(bp.parts.Header().Hash)))
+	}
+}
+
+// craftBlock builds a block on top of the target's state the way
+// BlockOperations.CreateProposalBlock does for an empty pool, optionally
+// breaking exactly one validity rule.
+func (s *Sim) craftBlock(b *Byz, target *kit.Node, rs *cstypes.RoundState, st cstate.LatestBlockState, variant int, rule string) *types.Block {
+	h := rs.Height
+	var commit *types.Commit
+	if h == st.InitialHeight {
+		commit = types.NewCommit(0, 0, types.BlockID{}, nil)
+	} else {
+		if rs.LastCommit == nil || !rs.LastCommit.HasTwoThirdsMajority() {
+			return nil
+		}
+		commit = rs.LastCommit.MakeCommit()
+	}
+	ts := st.LastBlockTime
+	if h > st.InitialHeight {
+		ts = cstate.MedianTime(commit, st.LastValidators)
+	}
+	hdr := &types.Header{Height: h, Time: ts, LastBlockID: st.LastBlockID, ProposerAddress: b.Addr,
+		ValidatorsHash: st.Validators.Hash(), NextValidatorsHash: st.NextValidators.Hash(), AppHash: st.AppHash, GasLimit: 200000000}
+	if variant == 1 {
+		// a second, equally valid block: different gas limit (covered by the hash, not by validation)
+		hdr.GasLimit = 200000001
+	}
+	cm := commit
+	switch rule {
+	case "height+1":
+		hdr.Height = h + 1
+	case "last-block-id":
+		hdr.LastBlockID.Hash[0] ^= 1
+	case "commit-other-block":
+		if h == st.InitialHeight {
+			return nil
+		}
+		c := *commit
+		c.BlockID.Hash[1] ^= 1
+		cm = &c
+	case "commit-bad-sig":
+		if h == st.InitialHeight || len(commit.Signatures) == 0 {
+			return nil
+		}
+		c := *commit
+		c.Signatures = append([]types.CommitSig(nil), commit.Signatures...)
+		for i := range c.Signatures {
+			if !c.Signatures[i].Absent() {
+				sg := append([]byte(nil), c.Signatures[i].Signature...)
+				sg[5] ^= 0x10
+				c.Signatures[i].Signature = sg
+				break
+			}
+		}
+		cm = &c
+	case "commit-below-quorum":
+		if h == st.InitialHeight {
+			return nil
+		}
+		c := *commit
+		c.Signatures = append([]types.CommitSig(nil), commit.Signatures...)
+		// blank signatures until at most 2/3 remain
+		tot := st.LastValidators.TotalVotingPower()
+		have := int64(0)
+		for i := range c.Signatures {
+			if !c.Signatures[i].Absent() {
+				have += st.LastValidators.Validators[i].VotingPower
+			}
+		}
+		for i := range c.Signatures {
+			if have*3 <= tot*2 {
+				break
+			}
+			if !c.Signatures[i].Absent() {
+				have -= st.LastValidators.Validators[i].VotingPower
+				c.Signatures[i] = types.NewCommitSigAbsent()
+			}
+		}
+		cm = &c
+	case "app-hash":
+		hdr.AppHash[3] ^= 1
+	case "validators-hash":
+		hdr.ValidatorsHash[3] ^= 1
+	case "next-validators-hash":
+		hdr.NextValidatorsHash[3] ^= 1
+	case "time+1ns":
+		hdr.Time = hdr.Time.Add(time.Nanosecond)
+	case "time-not-after-parent":
+		if h == st.InitialHeight {
+			return nil
+		}
+		hdr.Time = st.LastBlockTime
+	case "unknown-proposer":
+		hdr.ProposerAddress = common.BytesToAddress([]byte("nobody"))
+	}
+	blk := types.NewBlock(hdr, nil, cm, nil, trie.NewStackTrie(nil))
+	switch rule {
+	case "num-txs":
+		hh := blk.Header()
+		hh.NumTxs = 3
+		blk = blk.WithHeaderForVerif(hh)
+	case "data-hash":
+		hh := blk.Header()
+		hh.TxHash[2] ^= 1
+		blk = blk.WithHeaderForVerif(hh)
+	case "commit-hash":
+		hh := blk.Header()
+		hh.LastCommitHash[2] ^= 1
+		blk = blk.WithHeaderForVerif(hh)
+	}
+	return blk
+}
+
+// quorumOK is the independent +2/3 test used by monitors: 3*sum > 2*total.
+func quorumOK(sum, total int64) bool {
+	a := new(big.Int).Mul(big.NewInt(3), big.NewInt(sum))
+	b := new(big.Int).Mul(big.NewInt(2), big.NewInt(total))
+	return a.Cmp(b) > 0
+}
